@@ -293,6 +293,9 @@ func genDoc(t *rapid.T, kind string) []byte {
 		o := docs.NexusOpts{Translate: rapid.Bool().Draw(t, "translate"), Taxa: rapid.Bool().Draw(t, "taxa"), Data: rapid.IntRange(0, 3).Draw(t, "data") == 0, Comments: rapid.Bool().Draw(t, "ncomments"), Lower: rapid.Bool().Draw(t, "lower"), Unknown: rapid.IntRange(0, 3).Draw(t, "unknown") == 0}
 		return []byte(docs.Nexus(genModels(t, true), o))
 	case "phyloxml":
+		if rapid.Bool().Draw(t, "taxonomy") {
+			return []byte(docs.PhyloXMLTaxonomy(genModels(t, false)))
+		}
 		return []byte(docs.PhyloXML(genModels(t, false)))
 	case "nextstrain":
 		return []byte(docs.Nextstrain(genModels(t, false)[0], rapid.Bool().Draw(t, "attrs")))
